@@ -234,6 +234,9 @@ class SymR:
 
     __hash__ = None
 
+    def __bool__(s):
+        return _ENG[0].decide(s.e != 0)
+
     def __float__(s):
         raise TypeError("float() of a symbolic real (SymR): unsupported operation reached")
 
@@ -440,7 +443,6 @@ class SymC:
 
 
 def _iszero(t):
-    t = z3.simplify(t)
     return z3.is_rational_value(t) and t.numerator_as_long() == 0
 
 
